@@ -12,6 +12,8 @@
 import DiskfsModel.Proofs.FatChain
 import DiskfsModel.Proofs.FatTable
 import DiskfsModel.Model.Fat.Fs
+import DiskfsModel.Proofs.FatGeom
+import DiskfsModel.Proofs.FatFlatFs
 namespace Diskfs.Fat.C08
 
 /-- a volume geometry the theorems apply to: allocation limit inside both the FAT and the data
@@ -163,6 +165,60 @@ theorem fat_copies_equal (d : Dev) (k : Kind) (fatID size : Nat) (m : CMap) (p1 
     rw [readAt_applyWr_disjoint _ ⟨p2, b⟩ p1 b.length (Or.inl hdis)]
     exact readAt_applyWr_same d ⟨p1, b⟩
   rw [h1, h2]
+
+/-! ### geometry computed at mkfs time (mirror of the three `Create`s over the regenerated tables) -/
+
+/-- **create_geom12 / 16**: for EVERY size FAT12 / FAT16 `Create` accepts, the boot-sector geometry
+    matches the byte range given (sector count, nothing beyond the range), reserved area + both
+    FATs + root region lie in front of a non-empty data area, the FAT has an entry for every
+    cluster plus the two reserved ones, every data cluster lies inside the range, and the cluster
+    count is on the right side of 4085 / 65525. -/
+theorem create_geom12 (size : Nat) (g : Geom) (h : mkGeom12 Generated.Fat.fat12_spc_table size = some g) :
+    g.WF size ∧ g.kind = .f12 ∧ g.clusters < 4085 := mkGeom12_wf size g h
+
+theorem create_geom16 (size : Nat) (g : Geom) (h : mkGeom16 Generated.Fat.fat16_spc_table size = some g) :
+    g.WF size ∧ g.kind = .f16 ∧ 4085 ≤ g.clusters ∧ g.clusters < 65525 := mkGeom16_wf size g h
+
+/-- FAT32 with the repaired sectors-per-FAT formula: well formed for every accepted size up to
+    256 GiB with 512-byte sectors and for every accepted size with 4096-byte sectors -/
+theorem create_geom32_fixed (size bs : Nat) (g : Geom) (hmax : size ≤ 274940771839 ∨ bs = 4096)
+    (h : mkGeom32Fixed Generated.Fat.fat32_clusterBytes_table size bs = some g) :
+    g.WF size ∧ g.kind = .f32 := mkGeom32Fixed_wf size bs g hmax h
+
+/-- FAT32 as found: everything but the two reserved FAT entries -/
+theorem create_geom32_asfound_partial (size bs : Nat) (g : Geom) (hmax : size ≤ 274940837375 ∨ bs = 4096)
+    (h : mkGeom32 Generated.Fat.fat32_clusterBytes_table size bs = some g) :
+    g.totalSectors * g.bps ≤ size ∧ size < g.totalSectors * g.bps + g.bps ∧
+    g.reserved + 2 * g.fatSectors + g.rootSectors < g.totalSectors ∧
+    0 < g.clusters ∧ g.clusters ≤ g.fatEntries ∧
+    g.dataStart + g.clusters * g.spc * g.bps ≤ size ∧ g.kind = .f32 := mkGeom32_wf_weak size bs g hmax h
+
+/-- as found the FAT32 FAT is short of the two reserved entries on a whole family of ordinary
+    sizes (finding fat32-fatsize-omits-reserved-entries): 130k+32 sectors give 128k clusters and
+    128k entries, for every k -/
+theorem cex_fat32_fat_short (k r : Nat) (hk1 : 1 ≤ k) (hk2 : k ≤ 4095) (hr : r < 512) :
+    (mkGeom32 Generated.Fat.fat32_clusterBytes_table ((32 + 130 * k) * 512 + r) 512).map
+      (fun g => (g.fatEntries, g.clusters)) = some (128 * k, 128 * k) := mkGeom32_fat_short_family' k r hk1 hk2 hr
+
+/-- above 256 GiB the uint16 sectors-per-FAT wraps (finding fat32-geometry-narrow-integers) -/
+theorem cex_fat32_300GiB :
+    (mkGeom32 Generated.Fat.fat32_clusterBytes_table (300 * GB) 512).map
+      (fun g => decide (g.fatEntries < g.clusters + 2)) = some true := cex_mkGeom32_300GiB
+
+/-- the FAT12 sizing before `fix: fat12/fat16: size the FAT for the two reserved entries as well` -/
+theorem cex_fat12_fat_short_old :
+    (mkGeom12Old Generated.Fat.fat12_spc_table 33554944).map
+      (fun g => (g.fatEntries, g.clusters + 2)) = some (2048, 2049) := cex_fatsize_old_values
+
+/-! ### the one-directory filesystem keeps its table sound while it moves data (layer E) -/
+
+/-- every call of the one-directory filesystem, accepted or refused, keeps `FInv`, whose first
+    field is the cluster-map invariant over exactly the chains the directory's files own -/
+theorem onedir_inv_preserved (eqn) (g : FGeom) (fuel : Nat) (s : FState) (op : FOp)
+    (he : EqnOk eqn) (hb : 0 < g.io.bpc) (hlim : LimOk g.kind g.lim) (hmax : g.lim ≤ g.max)
+    (hfuel : g.lim - 2 ≤ fuel) (h : FInv eqn g s) :
+    Inv g.kind g.lim (fstep eqn g fuel s op).1.m ((fstep eqn g fuel s op).1.files.map (·.chain)) :=
+  (fstep_inv he hb hlim hmax hfuel s op h).table
 
 /-! ### as found -/
 
